@@ -191,6 +191,26 @@ def run_case(case, ctx):
             dNi = np.asarray(domI.eval_shape_fun_der(form))
             dNf = np.asarray(domI.eval_shape_fun_der(pi.astype(float)))
             require(bool(np.allclose(dNi, dNf, atol=1e-12)), "shape-function-derivatives-at-integer-typed-point-differ-from-float-point", point=pi)
+    # --- element sizes given with an integer type (unit cells of 2 x 1 x 3 mm): the domain is the same as with 2.0, 1.0, 3.0
+    sizeN = [int(rng.integers(1, 5)) for _ in range(3)]
+    forms = [sizeN, [np.int64(v) for v in sizeN], [np.int32(sizeN[0]), sizeN[1], np.int16(sizeN[2])]]
+    domF = pym.DomainDefinition(nx, ny, nz, unitx=float(sizeN[0]), unity=float(sizeN[1]), unitz=float(sizeN[2]))
+    for sz in forms[:2 if case.get("big") else 3]:
+        domN = pym.DomainDefinition(nx, ny, nz, unitx=sz[0], unity=sz[1], unitz=sz[2])
+        ctx.count("integer_typed_element_sizes")
+        for _ in range(4):
+            pf = np.array([rng.uniform(-0.5, 0.5) * sizeN[d] for d in range(3)])
+            if dim == 2:
+                pf[2] = 0
+            want = np.array([np.prod([0.5 + nn[a, d] * pf[d] / sizeN[d] for d in range(dim)]) for a in range(2 ** dim)])
+            Nn = np.asarray(domN.eval_shape_fun(pf))
+            require(Nn.shape == want.shape and bool(np.allclose(Nn, want, atol=1e-12)), "shape-functions-of-integer-sized-elements-differ-from-formula",
+                    point=pf, got=Nn, want=want, size=[int(v) for v in sizeN])
+            require(bool(np.allclose(np.asarray(domN.eval_shape_fun_der(pf)), np.asarray(domF.eval_shape_fun_der(pf)), atol=1e-12)),
+                    "shape-function-derivatives-of-integer-sized-elements-differ-from-float-sized-domain", point=pf, size=[int(v) for v in sizeN])
+        if not case.get("big"):
+            require(bool(np.allclose(np.asarray(domN.get_node_position(), dtype=float), np.asarray(domF.get_node_position(), dtype=float), atol=1e-12)),
+                    "node-positions-of-integer-sized-elements-differ-from-float-sized-domain", size=[int(v) for v in sizeN])
     # --- instances are independent: customising one domain's local numbering table in place (the docstring allows users to
     # override it) must not leak into domains constructed afterwards
     try:
